@@ -1,5 +1,12 @@
+"""Sidecar contracts for a5/core/hilbert.py."""
 from ..pyvc.contracts import Contract, LoopContract
+
+SHIFT = "a5.core.hilbert._shift_digits"
+FLIPS = "a5.core.hilbert.quaternary_to_flips"
 
 
 def register(reg):
-    pass
+    # small loop-free helpers called once per digit: inlined through a merged (if-then-else) summary of all their
+    # paths - their strongest postcondition - instead of splitting the caller's path at every digit
+    reg.merged_calls.add(SHIFT)
+    reg.merged_calls.add(FLIPS)
